@@ -1,4 +1,4 @@
-SPECIFICATION GSpec
+SPECIFICATION DSpec
 CONSTANTS
   Nodes = {"n1","n2","n3","n4"}
   Mode = "graph-law"
